@@ -16,6 +16,34 @@ TRUST = ("Trusted: Coq 8.16.1 kernel + vm_compute (no native_compute); no axioms
 
 # id -> (level text, technique, note)
 CLAIMS = {
+ 'C02': ("Codec.v states the documented format as a reader sharing nothing with the operation model; "
+         "kernel-checked: encode/decode round trip for every element-list length, type and byte order "
+         "(C02_codec_roundtrip), and for EVERY history of operations from a state related to the NumPy "
+         "model the directory satisfies Inv_disk (files present, |data| = prod(shape) x itemsize) and the "
+         "reader reconstructs dtype, shape and exactly the stored bytes (C02_reachable, by induction via "
+         "the simulation of C03); type-name table regenerated from numtype.py. Tie: independent Python "
+         "reader and the Coq reader are both run on the observed files after every step and compared "
+         "with the API.",
+         "Coq proof (codec round trip + invariant by induction over histories) + in-Coq differential evaluation",
+         "6.C02"),
+ 'C03': ("forward simulation proved in Coq: every step of the hand-written executable model of "
+         "append/iterappend/truncate/__setitem__/mode/reopen/metadata refines the NumPy list-of-rows "
+         "model (step_refines), lifted to every history by induction (C03_refines); corollaries: fresh "
+         "handle = live handle, append keeps the old bytes as a prefix, truncate keeps a prefix, rejected "
+         "calls leave the state unchanged, which calls are rejected. The model is tied to darr/array.py by "
+         "evaluating it inside coqc on the same bounded-exhaustive + random histories the implementation "
+         "ran, comparing outcome class, handle state and every file after every step; the NumPy reference "
+         "is also compared directly.",
+         "Coq refinement proof over an executable model + in-Coq differential evaluation on operation histories",
+         "6.C03"),
+ 'C09': ("kernel-checked for every start state, number of chunks, failure position and kind, and every "
+         "byte count k of a failed write: the call fails, the directory is again related to the model "
+         "holding the original rows ++ the completely appended chunks, and opens (C09_failed_append; "
+         "corollary of the C03 simulation, which covers the except-branch and the empty-array path). "
+         "Tie: real failures (raising iterables, wrong shape/rank, unconvertible items, RLIMIT_FSIZE at "
+         "chunk boundaries +-1, mid-element, mid-row) run against the implementation and the model.",
+         "Coq proof over an executable model with fault plans + in-Coq differential evaluation with kernel-enforced write failures",
+         "6.C09"),
  'C14': ("fit_frames and Array.iterindices are re-translated from /repo's source into Gallina on "
          "every run and five theorems (exact frame count for all integers, remainder rule, "
          "rejection of every out-of-range parameter, tiling a[start:end] when step=chunklen) are "
